@@ -57,6 +57,10 @@ CHECKS = {
          "TLC checks on all input-type graphs over 2 types (3 in the thorough tier: model-checked exhaustively, replayed by seeded sample) with member kinds {T, T!, [T], [T!]!} and @oneOf flags that the implementation's decision (box iff the target is recursive without indirection) makes the by-value containment graph acyclic and coincides with `lies on a by-value cycle`; likewise for fragment spread graphs on 2 (3) fragments through nullable and list fields, where the non-transitive detection of the pinned tree is refuted. Every emitted graph is generated for real: token-level acyclicity for all, rustc (E0072) and JSON round trip of recursive values for all fragment graphs and a sample of input graphs.",
          "Trusted: TLC, render.py, the containment reader in tools/c12.py (Option inline; Vec and Box indirect), rustc.",
          "DESIGN.md §5 C12", "model_checking"),
+ "C11": ("TLA+ keyword reference and binary-search model of the keyword table (Names.tla / MC_C11: lo/hi/mid actions, Sorted as the invariant the search depends on) model-checked by TLC for every needle, failing on an unsorted table; every name x position x normalization compiled with rustc and observed on the wire",
+         "TLC checks that binary search over the transcribed table finds exactly the 52 keywords of the Rust Reference (2015-2021 strict + reserved + union) for every needle of the pool, and shows SearchCorrect violated when two entries are swapped. The finite product of 66 names (52 keywords + 14 naming styles) x {response field, alias, variable, input-object field, enum value} x {none, rust} is generated, compiled and exercised: the JSON key / string must be exactly the GraphQL name. A failing pack is bisected to the offending name.",
+         "Trusted: TLC, the byte order of the pool written in the spec, rustc + serde. Names that collide after the generator's own renaming are kept in different modules.",
+         "DESIGN.md §5 C11", "model_checking"),
 }
 
 
